@@ -440,15 +440,15 @@ def r96(ctx, prog):
             for st in pth.stmts():
                 if isinstance(st, ast.Assign) and len(st.targets) == 1 and isinstance(st.targets[0], ast.Name):
                     env[st.targets[0].id] = st.value
-            cmpd = None
+            cmps = []   # every equality on the way that involves the requested target (each must be the exact comparison)
             for e in pth.events:
                 if e[0] == "cond" and e[2] is True:
                     for c in ast.walk(e[1]):
                         if isinstance(c, ast.Compare) and len(c.ops) == 1 and isinstance(c.ops[0], ast.Eq):
                             sides = [env.get(s_.id, s_) if isinstance(s_, ast.Name) else s_ for s_ in (c.left, c.comparators[0])]
                             if any(isinstance(x, ast.Name) and x.id == tparam for x in ast.walk(c)):
-                                cmpd = sides
-            if cmpd is None:
+                                cmps.append(sides)
+            if not cmps:
                 probs.append("an id is handed out on a path that has not compared the stored target with the requested one")
                 continue
             ok_other = {"%s.target_ref" % v, "%s.target_part" % v, "%s._target" % v}
@@ -459,11 +459,12 @@ def r96(ctx, prog):
                     return stored(e_.body) and stored(e_.orelse)
                 return ast.unparse(e_) in ok_other
 
-            req = [x for x in cmpd if isinstance(x, ast.Name) and x.id == tparam]
-            other = [x for x in cmpd if not (isinstance(x, ast.Name) and x.id == tparam)]
-            if len(req) != 1 or len(other) != 1 or not stored(other[0]):
-                probs.append("the stored target and the requested one are compared as `%s == %s`, not as the unmodified values" % (
-                    ast.unparse(cmpd[0]), ast.unparse(cmpd[1])))
+            for cmpd in cmps:
+                req = [x for x in cmpd if isinstance(x, ast.Name) and x.id == tparam]
+                other = [x for x in cmpd if not (isinstance(x, ast.Name) and x.id == tparam)]
+                if len(req) != 1 or len(other) != 1 or not stored(other[0]):
+                    probs.append("the stored target and the requested one are compared as `%s == %s`, not as the unmodified values" % (
+                        ast.unparse(cmpd[0]), ast.unparse(cmpd[1])))
     if not hits:
         ctx.error("_Relationships._get_matching", "no path returning the id of a matching relationship was recognised")
     elif probs:
